@@ -79,7 +79,8 @@ DECIDED = {
             "0 or 1..22 integer digits x 0..22 fraction digits x exponent forms x end-of-input/more input) for EVERY value of every digit: "
             "it consumes exactly the literal, returns the exact u64/i64 with the right class or the signed zero, never rejects a "
             "well-formed literal, and otherwise hands parse_float a significand/exponent pair that denotes the literal exactly "
-            "(1 <= w < 10^19, no digit dropped) or brackets it (trunc) together with the raw text - the precondition of the float runs."),
+            "(1 <= w < 10^19, no digit dropped) or brackets it (trunc) together with the raw text - the precondition of the float runs; the same "
+            "1764 shapes on the MIR of the target-cpu=native build, where the fraction goes through the SSE reader (s_parse_number_shapes_native)."),
     "C08": ("Raw numbers: deserialize_rawnumber (bare and quoted) captures exactly the span the number grammar delimits and rejects "
             "everything else; the validating number skipper == grammar; non-finite floats -> null; the integer clause by reduction: "
             "every digit string itoa can emit is read back exactly (C07 integer harnesses), every integer of every width incl. 128 bits is handed to itoa unchanged "
@@ -114,7 +115,8 @@ DECIDED = {
             "#[path]-included into an external crate) equals its lane-wise scalar definition for all inputs; (b) prefix_xor and "
             "get_nonspace_bits of arch/x86_64.rs equal arch/fallback.rs and the scalar definition on all masks/blocks, simd_str2int of "
             "sonic-number's x86_64 backend equals the fallback under the callers' precondition (Kani for need <= 8, 9 thorough; every need "
-            "1..16 by SMT over its MIR, s_simd_str2int); (c) the rest of the code is "
+            "1..16 by SMT over its MIR, s_simd_str2int; and the whole number scanner around it gives the same (w, q, trunc) / integer results on "
+            "the native-feature MIR as the specification demands, s_parse_number_shapes_native); (c) the rest of the code is "
             "backend-independent text, so equality of observable results follows by congruence."),
     "C18": ("Both publish-once caches under every two-reader interleaving at atomic-step granularity, including spurious weak-CAS "
             "failure. Inner::parse_from: every read returns the one cached decoding, every decoding ever created ends with no outstanding "
